@@ -206,6 +206,9 @@ def build_program(combos):
     lines.append('''
 
 def main():
+    import random
+
+    random.seed(20240229)  # the program's own use of the global random number generator
     R = []
     for name, fn in COMBOS:
         n0 = tw.COUNTER["n"]
@@ -215,6 +218,7 @@ def main():
         except Exception as e:
             o = ["exc", type(e).__name__]
         R.append([name] + o + [tw.COUNTER["n"] - n0, ("fin:" + name) in tw.EVENTS])
+    R.append(["program-random-stream", "ok", repr(random.random()), 0, True])
     print("done", len(R), tw.COUNTER["n"])
     return R
 ''')
@@ -285,6 +289,8 @@ def judge(res, un, tr, spec, wit):
     for f in spec.get("faults", {}):
         res.count("fault_plans_" + ("fired" if tr["fired"].get(f) else "not_fired"))
     res.count("tracer_callbacks", tr.get("tracer_callbacks", 0))
+    if spec.get("program_sets_profile"):
+        res.count("program_sets_profile_runs" + ("_with_preinstalled_profiler" if spec.get("preprofiler") else ""))
     for kd in tr.get("armed", []):
         res.seen("hook_kinds_armed", kd)
     return bad
@@ -300,7 +306,8 @@ def work(p):
         open(path, "w").write(build_program(combos))
         base = {"program": path, "k": w.get("k", 0), "exit": w.get("exit", "return")}
         un, err = run_child(d, dict(base, mode="untraced"), f"{w['id']}u")
-        tspec = dict(base, mode="traced", faults=w.get("faults", {}), preprofiler=w.get("preprofiler", False))
+        tspec = dict(base, mode="traced", faults=w.get("faults", {}), preprofiler=w.get("preprofiler", False),
+                     program_sets_profile=w.get("program_sets_profile", False), sample_rate=w.get("sample_rate"))
         tr, err2 = run_child(d, tspec, f"{w['id']}t")
         wit = {"workload": w}
         if un is None or tr is None:
@@ -350,7 +357,7 @@ def run(ck):
         for i in range(0, len(order), size):
             wid += 1
             workloads.append({"id": wid, "combos": order[i:i + size], "k": rs.choice([0, 3]), "exit": rs.choice(["return", "exception"]),
-                              "preprofiler": rs.random() < 0.5})
+                              "preprofiler": rs.random() < 0.5, "program_sets_profile": wid % 4 == 0, "sample_rate": [None, None, 2, 5][wid % 4]})
         rs.shuffle(order)
     # (c)+(d): fault plans x exit x pre-installed profiler
     plain = [c for c in combos if c[0] in ("HB", "TL", "TD", "DS", "MI") and c[1] in ("arg", "ret", "yield", "method_arg", "static_arg", "nested")]
@@ -372,6 +379,7 @@ def run(ck):
         ck.need("armed:" + kd, 1, "hook kind never armed on an object the tracer saw")
     ck.need("tracer_callbacks", 2000)
     ck.need("fault_plans_fired", 20)
+    ck.need("program_sets_profile_runs_with_preinstalled_profiler", 3)
     if ck.counters.get("fault_plans_not_fired"):
         ck.note(f"{ck.counters['fault_plans_not_fired']} fault sites never fired in their workload (too few calls)")
     ck.need("result_judgements", 300)
